@@ -191,6 +191,28 @@ def check_sectors(ctx, sym, nd, css, duals, rng):
                 continue
             got = o.value
             _judge(ctx, "gen_valid_sectors", got, expect, desc)
+            # the pointwise form of the same rule, and the count derived from the enumeration
+            if nd >= 1 and rng.random() < 0.3:
+                arr_ = cls(indices=indices, charge=charge, **kw)
+                es_ = set(expect)
+                for _ in range(4):
+                    sec_ = tuple(rng.choice(cs) for cs in css)
+                    ov = ctx.call(lambda: arr_.is_valid_sector(sec_))
+                    ctx.evaluated()
+                    ctx.count("sectors", f"{sym}:is_valid_sector")
+                    if not ov.ok:
+                        ctx.violation(f"is_valid_sector-raises-{ov.excname}", f"{desc}: {ov.exc!r}", desc)
+                    elif bool(ov.value) != (sec_ in es_):
+                        ctx.violation("sector-extra" if ov.value else "sector-missing", f"is_valid_sector({sec_}) = {ov.value!r} for {desc}, enumeration oracle says {sec_ in es_}", desc)
+                if expect:
+                    keep_ = rng.sample(expect, rng.randint(1, len(expect)))
+                    import numpy as _np
+
+                    arr2_ = cls(indices=indices, charge=charge, blocks={s_: _np.ones(tuple(ix.chargemap[c] for ix, c in zip(indices, s_))) for s_ in keep_}, **kw)
+                    osp = ctx.call(lambda: arr2_.get_sparsity())
+                    ctx.count("sectors", f"{sym}:get_sparsity")
+                    if osp.ok and abs(osp.value - len(keep_) / len(expect)) > 1e-12:
+                        ctx.violation("sector-extra" if osp.value < len(keep_) / len(expect) else "sector-missing", f"get_sparsity() = {osp.value!r} with {len(keep_)} stored blocks of {len(expect)} allowed sectors ({desc})", desc)
             if nd >= 2 and expect and len(expect) < nall:
                 ctx.nontrivial(("sec", sym, fermionic, css, duals, charge))
             ctx.sample({"kind": "sector-enumeration", **desc, "expected_sectors": [repr(s) for s in expect]})
